@@ -125,6 +125,7 @@ class World:
             idx = {}
             self.impl_spans = {}
             self.impl_targs = {}
+            self.impl_derived = {}
             self.impl_gen, self.fn_impl = {}, {}
             for name in self.mod.index:
                 m = re.search(r".*<impl at ([^:>]+):(\d+):(\d+): (\d+):(\d+)>::(.*)$", name)     # the LAST impl segment (impls nested in fn bodies)
@@ -163,6 +164,7 @@ class World:
                 tb, trb, derived, targs = self.impl_spans[key]
                 idx.setdefault((tb, trb, meth), []).append(name)
                 self.impl_targs[name] = targs
+                self.impl_derived[name] = derived
                 self.fn_impl[name] = key
             self._impl = idx
         return self._impl
